@@ -109,19 +109,21 @@ def deColumn (n : Nat) : Tree → Except String (List Nat)
     | some vs => if vs.length > n then .error "extra component" else if vs.length < n then .error "invalid length" else .ok vs
   | _ => .error "expected a column"
 
-/-- the documented column context: one column per id in the id list, in order; a repeated id must
-find its column already full -/
+/-- the documented column context: one column per id in the id list, in order.  The column of an id
+listed again is written through a re-acquired writer that resumes at the fill count reached before
+(`n`, or the first column would have been refused): any value in it is one too many, none is fine. -/
 def deColumns (n : Nat) : List Nat → List Tree → List (Nat × List Nat) → Except String (List (Nat × List Nat) × List Tree)
   | [], rest, acc => .ok (acc, rest)
   | _ :: _, [], _ => .error "end of components"
   | t :: ts, c :: cs, acc =>
-    match deColumn n c with
-    | .error m => .error m
-    | .ok vs =>
-      if acc.any (·.1 == t) then
-        -- second column for a type already filled: `push` is refused unless the column is empty
-        if vs.isEmpty then deColumns n ts cs acc else .error "extra component"
-      else deColumns n ts cs (acc ++ [(t, vs)])
+    if acc.any (·.1 == t) then
+      match deColumn 0 c with
+      | .error m => .error m
+      | .ok _ => deColumns n ts cs acc
+    else
+      match deColumn n c with
+      | .error m => .error m
+      | .ok vs => deColumns n ts cs (acc ++ [(t, vs)])
 
 def dedupSorted : List Nat → List Nat
   | [] => []
